@@ -698,3 +698,279 @@ Proof.
   - eapply ext_trans; [exact X1|]. eapply ext_trans; [exact X2|]. eapply ext_trans; eassumption.
   - unfold spec_inside. cbn [sp_lens sp_method sp_uri sp_version sp_hdrs sp_hdrs_sz]. lia.
 Qed.
+
+Definition detail_inside (lo hi : Z) (d : htcp_detail) : Prop :=
+  match d_lens d with
+  | [a; e; c] =>
+    lo <= d_resp d /\ d_resp d + a <= hi /\ 0 <= d_resp_sz d /\ d_resp d + d_resp_sz d <= hi /\
+    lo <= d_entity d /\ d_entity d + e <= hi /\ 0 <= d_entity_sz d /\ d_entity d + d_entity_sz d <= hi /\
+    lo <= d_cache d /\ d_cache d + c <= hi /\ 0 <= d_cache_sz d /\ d_cache d + d_cache_sz d <= hi /\
+    0 <= a /\ 0 <= e /\ 0 <= c
+  | _ => False
+  end.
+
+Lemma post_htcp_unpack_detail size s p sz :
+  good size s -> wrange p (p + sz) s -> 0 <= p -> 0 <= sz -> p + sz < size ->
+  post (htcp_unpack_detail s p sz)
+       (fun '(s', o) => good size s' /\ wrange p (p + sz) s' /\ ext s s' /\ opt_inside (detail_inside p (p + sz)) o).
+Proof.
+  intros HG HW H0 Hsz Hlt. unfold htcp_unpack_detail.
+  assert (HR : post (Ok (s, @None htcp_detail))
+                 (fun '(s', o) => good size s' /\ wrange p (p + sz) s' /\ ext s s' /\ opt_inside (detail_inside p (p + sz)) o))
+    by (cbn [post opt_inside]; split; [exact HG | split; [exact HW | split; [apply ext_refl | exact I]]]).
+  destruct HG as (HB & HS).
+  destruct (parse_uint16_cases (hb s) p sz HB H0) as [-> | (l1 & -> & Hl1 & Hs1)]; [lia | exact HR |].
+  destruct (sz - 2 <? l1) eqn:E1; [exact HR|].
+  destruct (parse_uint16_cases (hb s) (p + 2 + l1) (sz - 2 - l1) HB) as [-> | (l2 & -> & Hl2 & Hs2)]; [lia | lia | exact HR |].
+  destruct (sz - 2 - l1 - 2 <? l2) eqn:E2; [exact HR|].
+  eapply post_bind; [apply (post_hwr size p (p + sz)); [split; assumption | exact HW | lia | lia]|]; cbv beta.
+  intros s1 ((HB1 & HS1) & HW1 & X1 & Z1).
+  destruct (parse_uint16_cases (hb s1) (p + 2 + l1 + 2 + l2) (sz - 2 - l1 - 2 - l2) HB1) as [E | (l3 & E & Hl3 & Hs3)];
+    [lia | lia | rewrite E | rewrite E].
+  { cbn [post opt_inside]. split; [split; assumption | split; [assumption | split; [assumption | exact I]]]. }
+  destruct (sz - 2 - l1 - 2 - l2 - 2 <? l3) eqn:E3;
+    [cbn [post opt_inside]; split; [split; assumption | split; [assumption | split; [assumption | exact I]]]|].
+  eapply post_bind; [apply (post_hwr size p (p + sz)); [split; assumption | exact HW1 | lia | lia]|]; cbv beta.
+  intros s2 ((HB2 & HS2) & HW2 & X2 & Z2).
+  eapply post_bind; [apply (post_hwr size p (p + sz)); [split; assumption | exact HW2 | lia | lia]|]; cbv beta.
+  intros s3 ((HB3 & HS3) & HW3 & X3 & Z3).
+  assert (T1 : bget (hb s3) (p + 2 + l1) = 0) by (apply X3, X2, Z1).
+  assert (T2 : bget (hb s3) (p + 2 + l1 + 2 + l2) = 0) by (apply X3, Z2).
+  eapply post_bind; [apply (post_cstrlen (hb s3) (p + 2) (p + 2 + l1)); [lia | lia | exact T1]|]; cbv beta. intros a Ha.
+  eapply post_bind; [apply (post_cstrlen (hb s3) (p + 2 + l1 + 2) (p + 2 + l1 + 2 + l2)); [lia | lia | exact T2]|]; cbv beta. intros e He.
+  eapply post_bind; [apply (post_cstrlen (hb s3) (p + 2 + l1 + 2 + l2 + 2) (p + 2 + l1 + 2 + l2 + 2 + l3)); [lia | lia | exact Z3]|]; cbv beta. intros c Hc.
+  cbn [post opt_inside]. split; [split; assumption | split; [assumption | split]].
+  - eapply ext_trans; [exact X1|]. eapply ext_trans; eassumption.
+  - unfold detail_inside. cbn [d_lens d_resp d_resp_sz d_entity d_entity_sz d_cache d_cache_sz]. lia.
+Qed.
+
+(* what htcpHandleMsg hands on lies inside the received bytes *)
+Definition hclass_inside (len : Z) (c : htcp_class) : Prop :=
+  match c with
+  | HtcpTstReq sp => opt_inside (spec_inside 0 len) sp
+  | HtcpClr (Some sp) => opt_inside (spec_inside 0 len) sp
+  | HtcpTstRsp (Some d) => opt_inside (detail_inside 0 len) d
+  | _ => True
+  end.
+
+Ltac htcp_consts := unfold htcp_hdr_size, htcp_dhdr_size, htcp_dhdr_squid_size, htcp_off_major, htcp_off_minor,
+  htcp_op_end, htcp_op_tst, htcp_op_clr, htcp_rr_request, htcp_n_queried in *.
+
+Lemma spec_inside_mono lo hi lo' hi' sp : lo' <= lo -> hi <= hi' -> spec_inside lo hi sp -> spec_inside lo' hi' sp.
+Proof. unfold spec_inside. destruct (sp_lens sp) as [|a [|b [|c [|d [|? ?]]]]]; try tauto. lia. Qed.
+
+Lemma detail_inside_mono lo hi lo' hi' d : lo' <= lo -> hi <= hi' -> detail_inside lo hi d -> detail_inside lo' hi' d.
+Proof. unfold detail_inside. destruct (d_lens d) as [|a [|b [|c [|? ?]]]]; try tauto. lia. Qed.
+
+Lemma wrange_mono lo hi lo' hi' s : lo' <= lo -> hi <= hi' -> wrange lo hi s -> wrange lo' hi' s.
+Proof. unfold wrange. intros H1 H2 H. eapply Forall_impl; [|exact H]. cbv beta. intros; lia. Qed.
+
+Lemma opt_inside_mono {A} (P Q : A -> Prop) o : (forall a, P a -> Q a) -> opt_inside P o -> opt_inside Q o.
+Proof. destruct o; cbn [opt_inside]; auto. Qed.
+
+Lemma tbl_nonneg t : forallb (fun y => 0 <=? y) t = true -> forall i, 0 <= tbl t i.
+Proof.
+  unfold tbl. induction t as [|x r IH]; cbn [forallb nthZ]; intros H i; [lia|].
+  apply andb_prop in H. destruct H as [Hx Hr]. destruct (i =? 0); [lia | apply IH; exact Hr].
+Qed.
+
+(* THE bounds theorem for HTCP: for a message of [sz] received bytes in a buffer with at least one more byte,
+   htcpHandleMsg and the unpackers it calls read and write only inside the buffer -- in fact only inside the received
+   bytes and the byte after them -- whatever the sender wrote and whatever queries are outstanding *)
+Lemma post_htcp_handle_msg pending size s sz :
+  good size s -> hw s = [] -> 0 <= sz < size ->
+  post (htcp_handle_msg pending s sz)
+       (fun r => good size (hr_state r) /\ wrange 0 sz (hr_state r) /\ hclass_inside sz (hr_class r)).
+Proof.
+  intros HG HW Hsz. unfold htcp_handle_msg.
+  assert (HW0 : forall lo hi, wrange lo hi s) by (intros; unfold wrange; rewrite HW; constructor).
+  assert (HD : forall o c, c = HtcpDropped \/ c = HtcpNoOp \/ c = HtcpTstRsp None \/ c = HtcpClr None ->
+             post (Ok (mkhres o c s)) (fun r => good size (hr_state r) /\ wrange 0 sz (hr_state r) /\ hclass_inside sz (hr_class r))).
+  { intros o c Hc. cbn [post hr_state hr_class]. split; [exact HG | split; [apply HW0|]].
+    destruct Hc as [-> | [-> | [-> | ->]]]; exact I. }
+  destruct (HG) as (HB & HS).
+  destruct ((sz <? 0) || (sz <? htcp_hdr_size)) eqn:E0; [apply HD; auto|].
+  htcp_consts.
+  eapply post_bind; [apply post_rd; lia|]; cbv beta. intros _ _.
+  eapply post_bind; [apply post_be16; [exact HB | lia | lia]|]; cbv beta. intros hlen Hhlen.
+  eapply post_bind; [apply post_rd; lia|]; cbv beta. intros major _.
+  eapply post_bind; [apply post_rd; lia|]; cbv beta. intros minor _.
+  destruct (negb (sz =? hlen)); [apply HD; auto|].
+  destruct (negb (major =? 0)); [apply HD; auto|].
+  destruct (sz - 4 <? 8) eqn:E1; [apply HD; auto|].
+  eapply post_bind.
+  { apply post_rd. destruct (minor =? 0); [destruct (8 <=? sz - 4) eqn:E|]; lia. }
+  cbv beta. intros _ _.
+  eapply post_bind; [apply post_be16; [exact HB | lia | lia]|]; cbv beta. intros dlen Hdlen.
+  eapply post_bind; [apply post_rd; lia|]; cbv beta. intros b2 _.
+  eapply post_bind; [apply post_rd; lia|]; cbv beta. intros b3 _.
+  eapply post_bind; [apply post_be32; [exact HB | lia | lia]|]; cbv beta. intros msg_id Hmsg.
+  set (opcode := tbl (if minor =? 0 then htcp_old_opcode else htcp_new_opcode) b2).
+  set (f1 := tbl (if minor =? 0 then htcp_old_f1 else htcp_new_f1) b3).
+  set (rr := tbl (if minor =? 0 then htcp_old_rr else htcp_new_rr) b3).
+  destruct (5 <=? opcode) eqn:E2; [apply HD; auto|].
+  assert (Hop : 0 <= opcode).
+  { subst opcode. destruct (minor =? 0); apply tbl_nonneg; vm_compute; reflexivity. }
+  eapply post_bind; [apply post_idx; lia|]; cbv beta. intros _ _.
+  destruct (dlen <? 8) eqn:E3; [apply HD; auto|].
+  destruct (sz - 4 <? dlen) eqn:E4; [apply HD; auto|].
+  assert (Hspec : forall q qsz, 4 + 8 <= q -> 0 <= qsz -> q + qsz <= sz ->
+            post (htcp_unpack_specifier s q qsz)
+                 (fun '(s', o) => good size s' /\ wrange 0 sz s' /\ opt_inside (spec_inside 0 sz) o)).
+  { intros q qsz Hq1 Hq2 Hq3.
+    eapply post_mono; [apply (post_htcp_unpack_specifier size s q qsz); [exact HG | apply HW0 | lia | lia | lia]|].
+    intros [s' o] (G1 & W1 & _ & O1). split; [exact G1 | split].
+    - eapply wrange_mono; [| |exact W1]; lia.
+    - eapply opt_inside_mono; [|exact O1]. intros a. apply spec_inside_mono; lia. }
+  assert (Hdet : forall q qsz, 4 + 8 <= q -> 0 <= qsz -> q + qsz <= sz ->
+            post (htcp_unpack_detail s q qsz)
+                 (fun '(s', o) => good size s' /\ wrange 0 sz s' /\ opt_inside (detail_inside 0 sz) o)).
+  { intros q qsz Hq1 Hq2 Hq3.
+    eapply post_mono; [apply (post_htcp_unpack_detail size s q qsz); [exact HG | apply HW0 | lia | lia | lia]|].
+    intros [s' o] (G1 & W1 & _ & O1). split; [exact G1 | split].
+    - eapply wrange_mono; [| |exact W1]; lia.
+    - eapply opt_inside_mono; [|exact O1]. intros a. apply detail_inside_mono; lia. }
+  destruct (opcode =? 1).
+  - destruct (rr =? 0).
+    + destruct (dlen - 8 =? 0); [apply HD; auto|].
+      destruct (f1 =? 0); [apply HD; auto|].
+      eapply post_bind; [apply (Hspec (4 + 8) (dlen - 8)); lia|]; cbv beta.
+      intros [s' sp] (G1 & W1 & O1). cbn [post hr_state hr_class hclass_inside]. auto.
+    + eapply post_bind.
+      { apply post_idx. pose proof (Z.mod_pos_bound msg_id 8192). lia. }
+      cbv beta. intros _ _.
+      destruct (negb (pending msg_id)); [apply HD; auto|].
+      destruct (f1 =? 1); [apply HD; auto|].
+      eapply post_bind; [apply (Hdet (4 + 8) (dlen - 8)); lia|]; cbv beta.
+      intros [s' d] (G1 & W1 & O1). cbn [post hr_state hr_class hclass_inside]. auto.
+  - destruct (opcode =? 4); [|apply HD; auto].
+    destruct (dlen - 8 <? 2) eqn:E5; [apply HD; auto|].
+    eapply post_bind; [apply post_rd; lia|]; cbv beta. intros _ _.
+    eapply post_bind; [apply (Hspec (4 + 8 + 2) (dlen - 8 - 2)); lia|]; cbv beta.
+    intros [s' sp] (G1 & W1 & O1). cbn [post hr_state hr_class hclass_inside]. auto.
+Qed.
+
+Lemma recv_state_good size stale d len :
+  Forall is_byte d -> (forall i, is_byte (stale i)) -> good size (mkhst (recv_buf size stale d len) []).
+Proof. intros Hd Hs. split; [apply recv_buf_bytes; assumption | reflexivity]. Qed.
+
+Lemma htcp_udp_spec pending size recvmax stale d :
+  Forall is_byte d -> (forall i, is_byte (stale i)) -> 0 <= recvmax < size ->
+  post (htcp_udp pending size recvmax stale d)
+       (fun r => wrange 0 (Z.min (lenZ d) recvmax) (hr_state r) /\ hclass_inside (Z.min (lenZ d) recvmax) (hr_class r)).
+Proof.
+  intros Hd Hs Hr. unfold htcp_udp. pose proof (lenZ_nonneg d) as Hn.
+  eapply post_mono; [apply (post_htcp_handle_msg pending size); [apply recv_state_good; assumption | reflexivity | lia]|].
+  intros r (_ & H2 & H3). exact (conj H2 H3).
+Qed.
+
+Lemma htcp_spec_unit_spec size recvmax stale d :
+  Forall is_byte d -> (forall i, is_byte (stale i)) -> 0 <= recvmax < size ->
+  post (htcp_spec_unit size recvmax stale d)
+       (fun '(s, o) => wrange 0 (Z.min (lenZ d) recvmax) s /\ opt_inside (spec_inside 0 (Z.min (lenZ d) recvmax)) o).
+Proof.
+  intros Hd Hs Hr. unfold htcp_spec_unit. pose proof (lenZ_nonneg d) as Hn.
+  eapply post_mono; [apply (post_htcp_unpack_specifier size); [apply recv_state_good; assumption | constructor | lia | lia | lia]|].
+  intros [s o] (_ & H2 & _ & H4). exact (conj H2 H4).
+Qed.
+
+Lemma htcp_detail_unit_spec size recvmax stale d :
+  Forall is_byte d -> (forall i, is_byte (stale i)) -> 0 <= recvmax < size ->
+  post (htcp_detail_unit size recvmax stale d)
+       (fun '(s, o) => wrange 0 (Z.min (lenZ d) recvmax) s /\ opt_inside (detail_inside 0 (Z.min (lenZ d) recvmax)) o).
+Proof.
+  intros Hd Hs Hr. unfold htcp_detail_unit. pose proof (lenZ_nonneg d) as Hn.
+  eapply post_mono; [apply (post_htcp_unpack_detail size); [apply recv_state_good; assumption | constructor | lia | lia | lia]|].
+  intros [s o] (_ & H2 & _ & H4). exact (conj H2 H4).
+Qed.
+
+(* ================================================================== statements used by Properties_C39.v *)
+Lemma nthZ_nth_error (l : list Z) : forall i, 0 <= i ->
+  (i < lenZ l -> nth_error l (Z.to_nat i) = Some (nthZ l i)) /\ (lenZ l <= i -> nth_error l (Z.to_nat i) = None).
+Proof.
+  induction l as [|x r IH]; intros i Hi; cbn [lenZ nthZ].
+  - split; [lia|]. intros _. destruct (Z.to_nat i); reflexivity.
+  - pose proof (lenZ_nonneg r) as Hn. destruct (i =? 0) eqn:E0.
+    + assert (i = 0) by lia. subst i. split; [reflexivity | lia].
+    + replace (Z.to_nat i) with (S (Z.to_nat (i - 1))) by lia. cbn [nth_error].
+      destruct (IH (i - 1)) as [I1 I2]; [lia|]. split; intros H; [apply I1 | apply I2]; lia.
+Qed.
+
+Lemma rd_list_is_nth_error (l : list Z) (i : Z) :
+  rd (buf_of_list l) i = if i <? 0 then OOB else match nth_error l (Z.to_nat i) with Some x => Ok x | None => OOB end.
+Proof.
+  unfold rd, in_obj, buf_of_list. cbn [bsize bget].
+  destruct (Z.ltb_spec i 0) as [Hneg | Hpos].
+  - destruct (Z.leb_spec 0 i); [lia | reflexivity].
+  - destruct (nthZ_nth_error l i Hpos) as [I1 I2].
+    destruct (Z.ltb_spec i (lenZ l)) as [Hin | Hout].
+    + rewrite I1 by exact Hin. destruct (Z.leb_spec 0 i); [reflexivity | lia].
+    + rewrite I2 by exact Hout. destruct (Z.leb_spec 0 i); reflexivity.
+Qed.
+
+Lemma icp_in_bounds stale d :
+  Forall is_byte d -> (forall i, is_byte (stale i)) ->
+  icp_udp icp_bufsize (icp_bufsize - icp_recv_slack) stale d <> Got OOB /\
+  icp_udp icp_bufsize (icp_bufsize - icp_recv_slack) stale d <> Got NoFuel.
+Proof.
+  intros Hd Hs. eapply upost_safe. apply icp_udp_spec; [exact Hd | exact Hs | vm_compute; split; congruence].
+Qed.
+
+Lemma icp_url_inside_datagram stale d c :
+  Forall is_byte d -> (forall i, is_byte (stale i)) ->
+  icp_udp icp_bufsize (icp_bufsize - icp_recv_slack) stale d = Got (Ok c) ->
+  class_inside (Z.min (lenZ d) (icp_bufsize - icp_recv_slack)) c.
+Proof.
+  intros Hd Hs E.
+  pose proof (icp_udp_spec icp_bufsize (icp_bufsize - icp_recv_slack) stale d Hd Hs) as H.
+  rewrite E in H. apply H. vm_compute; split; congruence.
+Qed.
+
+Lemma htcp_in_bounds pending stale d :
+  Forall is_byte d -> (forall i, is_byte (stale i)) ->
+  safe (htcp_udp pending htcp_bufsize (htcp_bufsize - htcp_recv_slack) stale d).
+Proof.
+  intros Hd Hs. eapply post_safe. apply htcp_udp_spec; [exact Hd | exact Hs | vm_compute; split; congruence].
+Qed.
+
+Lemma htcp_inside_datagram pending stale d r :
+  Forall is_byte d -> (forall i, is_byte (stale i)) ->
+  htcp_udp pending htcp_bufsize (htcp_bufsize - htcp_recv_slack) stale d = Ok r ->
+  wrange 0 (Z.min (lenZ d) (htcp_bufsize - htcp_recv_slack)) (hr_state r) /\
+  hclass_inside (Z.min (lenZ d) (htcp_bufsize - htcp_recv_slack)) (hr_class r).
+Proof.
+  intros Hd Hs E.
+  pose proof (htcp_udp_spec pending htcp_bufsize (htcp_bufsize - htcp_recv_slack) stale d Hd Hs) as H.
+  rewrite E in H. apply H. vm_compute; split; congruence.
+Qed.
+
+Lemma htcp_unpackers_in_bounds stale d :
+  Forall is_byte d -> (forall i, is_byte (stale i)) ->
+  safe (htcp_spec_unit htcp_bufsize (htcp_bufsize - htcp_recv_slack) stale d) /\
+  safe (htcp_detail_unit htcp_bufsize (htcp_bufsize - htcp_recv_slack) stale d).
+Proof.
+  intros Hd Hs. split; eapply post_safe;
+    [apply htcp_spec_unit_spec | apply htcp_detail_unit_spec]; try assumption; vm_compute; split; congruence.
+Qed.
+
+Lemma snmp_in_bounds_refuted :
+  exists d, Forall is_byte d /\ lenZ d <= snmp_request_size - snmp_recv_slack /\
+            forall stale, snmp_udp snmp_request_size (snmp_request_size - snmp_recv_slack) stale d = Got OOB.
+Proof.
+  exists snmp_witness. split; [exact snmp_witness_bytes | split].
+  - rewrite snmp_witness_len. vm_compute. congruence.
+  - exact snmp_witness_oob.
+Qed.
+
+Lemma snmp_in_bounds_partial stale d :
+  Forall is_byte d -> (forall i, is_byte (stale i)) -> lenZ d + 6 <= snmp_request_size ->
+  snmp_udp snmp_request_size (snmp_request_size - snmp_recv_slack) stale d <> Got OOB /\
+  snmp_udp snmp_request_size (snmp_request_size - snmp_recv_slack) stale d <> Got NoFuel.
+Proof.
+  intros Hd Hs Hl. apply snmp_udp_safe; [exact Hd | exact Hs | lia | vm_compute; reflexivity].
+Qed.
+
+Lemma icp_unit_in_bounds stale d :
+  Forall is_byte d -> (forall i, is_byte (stale i)) ->
+  safe (icp_unit icp_bufsize (icp_bufsize - icp_recv_slack) stale d).
+Proof. intros Hd Hs. apply icp_unit_safe; [exact Hd | exact Hs | vm_compute; split; congruence]. Qed.
